@@ -238,4 +238,7 @@ def doctypes(root: str, canary_uri: str, http_uri: str = "http://127.0.0.1:9/x")
 
 ENTITY_CLASSES = ["internal-used", "internal-unused", "bomb", "ext-general-file", "ext-general-http", "ext-parameter", "unparsed", "public-ext"]
 ENTITY_REF = {"internal-used": "&a;", "bomb": "&e8;", "ext-general-file": "&x;", "ext-general-http": "&x;", "public-ext": "&x;"}
-LEADS = ["", "<!-- exported by a tool -->\n", '<?xml-stylesheet type="text/xsl" href="s.xsl"?>\n', "\n\n   \n", "<!-- a --><!-- b -->\n<?pi x?>\n"]
+LEADS = ["", "<!-- exported by a tool -->\n", '<?xml-stylesheet type="text/xsl" href="s.xsl"?>\n', "\n\n   \n", "<!-- a --><!-- b -->\n<?pi x?>\n",
+         # long prologs: nothing bounds what may precede the DOCTYPE (licence banners, runs of PIs, blank padding)
+         "<!-- " + "licence text " * 400 + "-->\n", "<?pi " + "x" * 60 + "?>\n" * 1 + "<?note y?>\n" * 900, " " * 5000 + "\n" * 3000,
+         "<!-- " + "z" * 70000 + " -->\n"]
